@@ -36,7 +36,7 @@ FU = 'utils.func_utils'
 
 
 def run(ctx: Ctx):
-  for r in (r1, r2, r3, r4, r5, r6, r7, r8, r9):
+  for r in (r1, r2, r3, r4, r5, r6, r7, r8, r9, r10):
     ctx.guard(r)
 
 
@@ -617,11 +617,60 @@ def r9(ctx: Ctx):
   ctx.floor(rule, 1, n)
 
 
+def r10(ctx: Ctx):
+  rule = 'R-C17-10'
+  ctx.rule(rule, '"attribute, item and call chains ... yield the value the same expression yields eagerly": the tracing'
+           ' __getattr__ of a lazy object records EVERY attribute name except the dunder protocol names pickling / copying'
+           ' probe for — each `raise AttributeError` in it is guarded by a condition whose conjuncts include both'
+           ' `name.startswith(\'__\')` and `name.endswith(\'__\')`. A wider refusal (any leading underscore) makes'
+           ' `trace(nt)._asdict()`, `._replace(...)`, `._fields` or a private attribute raise where the eager chain yields'
+           ' a value')
+  ci = ctx.repo.cls(LF, 'LazyObject')
+  fi = ci.methods.get('__getattr__')
+  if fi is None:
+    raise AnalysisError('LazyObject.__getattr__ not found')
+  name = fi.params()[1]
+  g = cfgm.cfg_of(fi.node)
+  raises = [nd for nd in g.nodes if isinstance(nd.ast, ast.Raise)]
+  if not raises:
+    raise AnalysisError('LazyObject.__getattr__ refuses nothing: the dunder guard that keeps pickling working is gone')
+  n = 0
+
+  def gen(nd, lab):
+    if nd.kind != 'cond':
+      return ()
+    out = []
+    for c in cfgm.truthy_conjuncts(nd.ast, lab):
+      if isinstance(c, ast.Call) and isinstance(c.func, ast.Attribute) and unparse(c.func.value) == name and c.func.attr in (
+          'startswith', 'endswith') and len(c.args) == 1 and isinstance(c.args[0], ast.Constant):
+        out.append((c.func.attr, c.args[0].value))
+    return out
+
+  facts = cfgm.must_facts(g, gen, lambda nd, fact: False)
+  for r_ in raises:
+    n += 1
+    have = set(facts.get(r_, ()))
+    ok = ('startswith', '__') in have and ('endswith', '__') in have
+    what = 'LazyObject.__getattr__ refuses dunder names only'
+    if ok:
+      ctx.ok(rule, fi, what, r_.ast)
+    else:
+      ctx.fail(rule, fi, what,
+               f'`{unparse(r_.ast)}` (line {r_.lineno}) is reached knowing only {sorted(have) or "nothing"} about `{name}`: names'
+               ' that are not dunders are refused instead of traced — `trace(obj)._field` raises AttributeError although'
+               ' the eager `obj._field` yields a value', node=r_.ast)
+  ctx.floor(rule, 1, n)
+
+
 from mlmverif.selfcheck import B, OK  # noqa: E402
 
 _L = 'chainables/lazy_fns.py'
 _F = 'utils/func_utils.py'
 VARIANTS = [
+    B('getattr-refuses-every-underscore-name', 'chainables/lazy_fns.py',
+      "    if name.startswith('__') and name.endswith('__'):\n      raise AttributeError", "    if name.startswith('_'):\n      raise AttributeError(name)", 'R-C17-10'),
+    OK('getattr-dunder-guard-nested', 'chainables/lazy_fns.py',
+       "    if name.startswith('__') and name.endswith('__'):\n      raise AttributeError", "    if name.startswith('__'):\n      if name.endswith('__'):\n        raise AttributeError(name)"),
     B('list-key-recorded-as-tuple', 'chainables/lazy_fns.py',
       '  def __getitem__(self, key) -> LazyFn:\n    return LazyFn.new(operator.getitem, args=(self, key))',
       '  def __getitem__(self, key) -> LazyFn:\n    if isinstance(key, list):\n      key = tuple(key)\n    return LazyFn.new(operator.getitem, args=(self, key))', 'R-C17-8'),
